@@ -1201,23 +1201,6 @@ fn get_nonterminals_resolution_order(
     let mut path: Vec<(Ustr, HumanSpan)> = Default::default();
 
     let not_depended_on_vars = get_not_depended_on_nonterminals(&dependency_graph);
-    if not_depended_on_vars.is_empty() {
-        // Take any vertex and compute a sample cycle to illustrate to the user
-        let any_vertex = dependency_graph.keys().next().unwrap();
-        path.push((
-            *any_vertex,
-            nonterminal_definitions.get(any_vertex).unwrap().lhs_span,
-        ));
-        traverse_nonterminal_dependencies_dfs(
-            *any_vertex,
-            &dependency_graph,
-            &mut path,
-            &mut visited,
-            &mut result,
-        )?;
-        unreachable!();
-    }
-
     for vertex in not_depended_on_vars {
         debug_assert!(!visited.contains(&vertex));
         path.push((
@@ -1234,6 +1217,33 @@ fn get_nonterminals_resolution_order(
         path.clear();
         result.push(vertex);
         debug_assert!(path.is_empty());
+    }
+
+    // Whatever hasn't been reached from the vertices above lies on, or behind, a cycle (e.g.
+    // `<A> ::= <B>; <B> ::= <A>;` next to an unrelated `<C> ::= x;`, or when every definition is
+    // depended on): search from each of them until the cycle is found.
+    let unvisited: Vec<Ustr> = dependency_graph
+        .keys()
+        .filter(|vertex| !visited.contains(*vertex))
+        .copied()
+        .collect();
+    for vertex in unvisited {
+        if visited.contains(&vertex) {
+            continue;
+        }
+        path.push((
+            vertex,
+            nonterminal_definitions.get(&vertex).unwrap().lhs_span,
+        ));
+        traverse_nonterminal_dependencies_dfs(
+            vertex,
+            &dependency_graph,
+            &mut path,
+            &mut visited,
+            &mut result,
+        )?;
+        path.clear();
+        result.push(vertex);
     }
 
     // Filter out nonterminals that don't depend on any other as they are already fully resolved.
